@@ -151,6 +151,11 @@ class Model:
         """Set of allowed reaction classes for command `sym` in the current state."""
         cmd = sym['cmd']
         st = self.state
+        if cmd == 'HIBIT':
+            # a command word with bytes outside ASCII is outside the protocol's alphabet (and outside the statement's
+            # quantifier): answering ERROR or dropping the connection are both accepted - treating it as the command it
+            # resembles is not
+            return {'ERROR', 'CLOSE'}
         if cmd == 'BEGIN':
             return {'AUTHENTICATED'} if st == 'begin' else {'CLOSE'}
         res = None
@@ -231,6 +236,8 @@ SYMS = ['AUTH', 'AUTH_ANON', 'AUTH_ANON_resp', 'AUTH_ANON_badhex', 'AUTH_EXT', '
 
 SERVER_WORDS = {'cli_OK': b'OK 0123456789abcdef0123456789abcdef', 'cli_REJECTED': b'REJECTED ANONYMOUS',
                 'cli_AGREE': b'AGREE_UNIX_FD', 'cli_OK_bare': b'OK'}
+HIBIT_WORDS = {'hi_AUTH': b'AU\xffTH ANONYMOUS', 'hi_AUTH2': b'AUTH\xc3\xa9 ANONYMOUS', 'hi_BEGIN': b'BEG\xc3\xa9IN',
+               'hi_BEGIN2': b'BEGIN\xff', 'hi_BEGIN3': b'\xfeBEGIN', 'hi_DATA': b'DA\x80TA', 'hi_CANCEL': b'CANCEL\xa0'}
 
 
 def concretise(name, ctx_state, env):
@@ -290,6 +297,8 @@ def concretise(name, ctx_state, env):
         return b'NEGOTIATE_UNIX_FD', {'cmd': 'NEGOTIATE_UNIX_FD'}
     if name == 'junk':
         return b'FROBNICATE now', {'cmd': 'OTHER'}
+    if name in HIBIT_WORDS:
+        return HIBIT_WORDS[name], {'cmd': 'HIBIT'}
     if name in SERVER_WORDS:
         # command words only a SERVER sends, said by the client: unknown commands like any other
         return SERVER_WORDS[name], {'cmd': 'OTHER'}
@@ -410,7 +419,7 @@ def run_sequence(ctx, env, symbols, case, split_rng=None, proto_cls=MonBusProtoc
             s.finish()
             return transcript
         if crashed and reaction == 'CLOSE' and 'CLOSE' in allowed and sym.get('arg') != 'malformed' \
-                and sym['cmd'] != 'BEGIN' and model.rejects < 5:
+                and sym['cmd'] not in ('BEGIN', 'HIBIT') and model.rejects < 5:
             ctx.report(None, 'bus side crashed with %r on a well-formed line %r' % (crashed, line), w, case)
         # --- content of the reply line
         for l in lines:
@@ -672,8 +681,9 @@ def run(ctx):
     with authenv.AuthEnv() as env:
         if si == 0:
             for ln in (1, 2, 3):
-                for seq in itertools.product(SYMS + list(SERVER_WORDS), repeat=ln):
-                    if not any(x in SERVER_WORDS for x in seq) or (ln == 3 and seq[1] not in SERVER_WORDS):
+                extra_ = list(SERVER_WORDS) + list(HIBIT_WORDS)
+                for seq in itertools.product(SYMS + extra_, repeat=ln):
+                    if not any(x in extra_ for x in seq) or (ln == 3 and seq[1] not in extra_):
                         continue
                     run_sequence(ctx, env, seq, {'kind': 'seq', 'symbols': list(seq)})
                     ctx.count('server_word_sequences')
